@@ -110,3 +110,21 @@ Proof.
   - destruct (references_for_sql h tid t) as [rs|e]; cbn in H; [|discriminate H]. inversion H; subst l.
     apply filter_In in Hin as [_ Hf]. destruct (h_reference h rid) as [r|]; [|discriminate Hf]. eauto.
 Qed.
+
+(* ---- C03: database-level composition ---- *)
+Definition noninline_refs (h : heap) (d : database) : list oid :=
+  filter (fun rid => match h_reference h rid with Some r => negb (ref_inline r) | None => true end) (d_refs d).
+
+Lemma sql_render_db_structure render h d s :
+  sql_render_db_with render h d = Ok s ->
+  exists order comps,
+    Permutation order (d_tables d) /\
+    mapM (render h) (d_enums d ++ order ++ noninline_refs h d) = Ok comps /\
+    s = join [cLF; cLF] comps.
+Proof.
+  unfold sql_render_db_with. destruct (reorder_tables_for_sql h (d_tables d) (d_refs d)) as [order|e] eqn:Ho; cbn [bind]; [|discriminate].
+  fold (noninline_refs h d).
+  destruct (mapM (render h) (d_enums d ++ order ++ noninline_refs h d)) as [comps|e] eqn:Hm; cbn [bind]; [|discriminate].
+  intros H. inversion H; subst. exists order, comps. split; [|split; [exact Hm|reflexivity]].
+  eapply reorder_tables_perm; eauto.
+Qed.
